@@ -49,6 +49,7 @@ class View:
         self.epics = [t["id"] for t in graph["tasks"] if t["is_epic"]]
         self.by_id = {t["id"]: t for t in graph["tasks"]}
         self.pruned = list(graph.get("tombs", []))
+        self.deps = [tuple(e) for e in graph.get("deps", [])]          # (x, y): x waits for y
 
 
 def some_id(r, v, want="task"):
@@ -145,6 +146,13 @@ def gen_request(r, v, weights=None):
             ep, _ = some_id(r, v, "epic")
         return {"cmd": "claim_oldest", "epic": ep}, agent
     if kind == "sequence":
+        # one time in four, where the graph has one: the shortcut of an existing path (a waits for b waits for c: ask for "a after c") — an edge that
+        # adds nothing to reachability and still has to be recorded, reported and shown like any other
+        deps = getattr(v, "deps", [])
+        paths = [(a, c) for (a, b) in deps for (b2, c) in deps if b2 == b and a != c and (a, c) not in deps]
+        if paths and r.p(25):
+            a, c = r.pick(paths)
+            return {"cmd": "sequence", "args": [c, a]}, agent
         want = "task" if r.p(80) else "epic"
         k = r.weighted([(2, 60), (3, 30), (4, 10)])
         return {"cmd": "sequence", "args": [some_id(r, v, want)[0] for _ in range(k)]}, agent
